@@ -140,7 +140,7 @@ def lapMatvec (op : LapOp α) (a : Mat α) (x : Vec α) : Vec α :=
   let y : Vec α := if op.normalized then tab n fun i => vget op.normDiag i * vget x i else x
   let prod : Vec α := tab n fun i => vget op.weights i * vget y i - sumN n fun j => mget a i j * vget y j
   let prod : Vec α :=
-    if 0 < op.reg then
+    if !(op.reg == 0) then
       let mean := sumN n (vget y) / (n : α)
       tab n fun i => vget prod i + op.reg * (vget y i - mean)
     else prod
@@ -151,7 +151,7 @@ def normalizerMatmat (n k : Nat) (a : Mat α) (reg : α) (m : Mat α) : Mat α :
   let nd : Vec α := tab n fun i => pinv ((sumN n fun j => mget a i j * 1) + reg)
   let prod : Mat α := mkMat n k fun i c => sumN n fun j => mget a i j * mget m j c
   let prod : Mat α :=
-    if 0 < reg then
+    if !(reg == 0) then
       let mean : Vec α := tab k fun c => sumN n (fun j => mget m j c) / (n : α)
       mkMat n k fun i c => mget prod i c + reg * (1 * vget mean c)
     else prod
@@ -211,7 +211,13 @@ def lanczosSvdPost (nRow nCol : Nat) (u : Mat α) (s : Vec α) (vt : Mat α) : V
   (index.map (vget s), selectCols nRow u index,
    selectCols nCol (mkMat nCol s.length fun j c => mget vt c j) index)
 
+/-- `LanczosSVD.fit` calls `svds` with its default `which='LM'` (largest singular values) -/
+def lanczosSvdWhich : String := "LM"
+
 /-! ### spectral.py -/
+
+/-- `Spectral.fit` asks `LanczosEig(which='SM')`: the eigenvalues of smallest magnitude of the Laplacian -/
+def spectralWhich : String := "SM"
 
 structure SpectralOut (α : Type) where
   bipartite : Bool
